@@ -165,8 +165,9 @@ class BezierCurve(BaseCurve):
         points = self.ctrlpoints
         while degree - times > 1:
             _, materror = Operations.degree_decrease(degree, times + 1)
+            # error is the square of the L2 distance between the curves
             error = np.dot(points, np.dot(materror, points))
-            if tolerance and error > tolerance:
+            if tolerance and error > tolerance**2:
                 break
             times += 1
         if times == 0:
